@@ -175,6 +175,10 @@ func cmdCheck(prop, tier string) int {
 		if v, ok := s.params["maxpaths"]; ok {
 			opts.MaxPaths = v
 		}
+		if c, err := strconv.Atoi(os.Getenv("GOSYM_HARNESS_CAP")); err == nil && c > 0 {
+			// measurement aid: cap the exploration time per harness (a capped run is inconclusive)
+			opts.Deadline = time.Now().Add(time.Duration(c) * time.Second)
+		}
 		res := prog.Run(pkgPathOf(s.h.Dir), s.h.Func, cfg, opts)
 		fmt.Fprintf(os.Stderr, "[%s %s] %s: paths=%d outcomes=%v queries=%d wall=%.1fs\n", prop, tier, s.h.Func, res.Paths, res.Outcomes, res.Queries, res.WallS)
 		he := harnessEvidence{Harness: s.h.Dir + "." + s.h.Func, Params: s.params, Paths: res.Paths, Steps: res.Steps, Outcomes: res.Outcomes,
